@@ -1,5 +1,4 @@
 import Driver.FilterIO
-import AGH.Model.FilterConfig
 open Driver Driver.FilterIO AGH AGH.Filter
 
 /-- reload mode: the configuration and engines of the current block -/
@@ -58,90 +57,6 @@ def stepRQ (b : Block) (fs : List String) : Option String := do
       pure (verdict agree (bad.map (fun w => "during-reload:" ++ w)) shown)
   | _ => none
 
-/-! ### configuration-sequence mode -/
-
-open AGH.Filter.Cfg in
-def renderEntries (l : List Cfg.Entry) : String :=
-  if l.isEmpty then "-" else
-  ",".intercalate (l.map (fun en => toString en.src ++ ":" ++ (if en.enabled then "1" else "0") ++ ":" ++ toString en.count))
-
-def renderCfg (code : Nat) (s : Cfg.State) : String :=
-  "\t".intercalate [toString code, renderEntries s.block, renderEntries s.allow,
-    (if s.filtering then "1" else "0"), toString s.userRules.length]
-
-def hexLines (fs : List String) : Option (List Bytes) := fs.mapM hexDecode
-
-/-- one configuration op: `(status, new state)`; the observation is the HTTP
-status and what GET /control/filtering/status reports afterwards -/
-def cfgOp (s : Cfg.State) (op : String) (args : List String) : Option (String × Cfg.State) := do
-  match op, args with
-  | "C01.creset", n :: rest =>
-    -- n sources, each: k lines
-    let cnt ← n.toNat?
-    let rec srcs : Nat → List String → Option (List (List Bytes))
-      | 0, [] => some []
-      | 0, _ => none
-      | k + 1, m :: more => do
-        let mm ← m.toNat?
-        let ls ← hexLines (more.take mm)
-        let restS ← srcs k (more.drop mm)
-        some (ls :: restS)
-      | _, [] => none
-    let ss ← srcs cnt rest
-    pure ("reset", { sources := ss })
-  | "C01.csrc", i :: lines =>
-    let idx ← i.toNat?
-    let ls ← hexLines lines
-    pure ("ok", { s with sources := s.sources.set idx ls })
-  | "C01.cadd", [i, w] =>
-    let (code, s') := Cfg.addURL s (← i.toNat?) (← parseBool w)
-    pure (renderCfg code s', s')
-  | "C01.cset", [i, w, j, en] =>
-    let (code, s') := Cfg.setURL s (← i.toNat?) (← parseBool w) (← j.toNat?) (← parseBool en)
-    pure (renderCfg code s', s')
-  | "C01.cremove", [i, w] =>
-    let (code, s') := Cfg.removeURL s (← i.toNat?) (← parseBool w)
-    pure (renderCfg code s', s')
-  | "C01.crefresh", [w] =>
-    let (code, s') := Cfg.refresh s (← parseBool w)
-    pure (renderCfg code s', s')
-  | "C01.crules", lines =>
-    let ls ← hexLines lines
-    let s' := { s with userRules := ls }
-    pure (renderCfg 200 s', s')
-  | "C01.cfilt", [en] =>
-    let s' := { s with filtering := ← parseBool en }
-    pure (renderCfg 200 s', s')
-  | "C01.cprot", [en] =>
-    let s' := { s with protection := ← parseBool en }
-    pure (renderCfg 200 s', s')
-  | _, _ => none
-
-/-- the scripted upstream of the configuration-sequence mode: one TXT record "up" -/
-def cfgUpstream (q : Query) : Upstream :=
-  { rcode := 0, answer := [{ name := q.name, ttl := 60, data := .other 16 [117, 112] }] }
-
-/-- `C01.cq name type`: a query under the configured state -/
-def cfgQuery (s : Cfg.State) (fs : List String) : Option String := do
-  let (ins, impl) ← splitArrow fs
-  match ins with
-  | [qn, qt] =>
-    let q : Query := { name := ← hexDecode qn, qtype := ← qt.toNat? }
-    let block ← parseLines s.blockLines
-    let allow ← parseLines s.allowLines
-    let e := ruleEngines block allow
-    let c := s.conf
-    let u := cfgUpstream q
-    let m := handle e c u q
-    let mOut := renderOutcome m
-    let shown := "config:" ++ classOf c m ++ "\t" ++ mOut
-    if impl.head? == some "PANIC" then pure (verdict false (some "impl-panic") shown)
-    else if isHang impl then pure (verdict false (some "request-hangs") shown)
-    else
-      let (obs, _) ← outcomeP.run impl
-      pure (verdict (mOut == renderOutcome obs) ((C01.check e c u q obs).map (fun w => "config-seq:" ++ w)) shown)
-  | _ => none
-
 structure St where
   block : Option Block := none
   cfg : Option Cfg.State := none
@@ -157,20 +72,10 @@ def step (st : St) (line : String) : St × String :=
     match st.block with
     | some b => (st, (stepRQ b rest).getD "bad-op")
     | none => (st, "bad-op")
-  | "C01.cq" :: rest =>
-    match st.cfg with
-    | some s => (st, (cfgQuery s rest).getD "bad-op")
-    | none => (st, "bad-op")
   | op :: rest =>
     if op.startsWith "C01.c" then
-      match splitArrow rest with
-      | some (ins, impl) =>
-        let s0 : Cfg.State := st.cfg.getD { sources := [] }
-        match cfgOp s0 op ins with
-        | some (expect, s') =>
-          ({ st with cfg := some s' }, verdict (expect == "\t".intercalate impl) none ("config:" ++ expect))
-        | none => (st, "bad-op")
-      | none => (st, "bad-op")
+      let (cfg', out) := cfgStep C01.check st.cfg (op.drop 4).toString rest
+      ({ st with cfg := cfg' }, out)
     else (st, "bad-op")
   | [] => (st, "bad-op")
 
